@@ -17,7 +17,7 @@ from vf.util import plain, unplain
 
 LEVEL = "exploration"
 RULE = ("random rulebooks (literal words, *, ~, nesting<=3, %global incl. catch-all, %ordered, %rewrite-children blocks, "
-        "undo_redo/permanent/ignore_changes, rules written in negated form) x every block-CLI vendor's negation/exit words x "
+        "undo_redo/permanent/ignore_changes, rules written in negated form) x every block-CLI vendor's negation/exit words, and flat rulebooks (fixed-width block rows, no catch-alls/%rewrite/negated-form) x the Junos-like vendors juniper, ribbon, nokia (flattened set/delete statements) x "
         "chains new_1..new_k (k<=4 quick, <=8 thorough) of trees instantiating the rules with <=1 row per (rule,key), new trees both "
         "derived from the device state by random edits and generated independently; plus an exhaustive scope: one fixed rulebook "
         "(block rule with two child rules + a leaf rule), all 117 trees with <=1 row per key, all ordered pairs. Non-trivial: "
@@ -27,11 +27,14 @@ ASSUMPTIONS = [
     "rows of block rules, of %ordered rules and of permanent rules instantiate the rule exactly (no trailing words: same key => same text), other leaf rows may carry trailing words (same key, new text)",
     "at most one %ordered rule per level (the relative order of two different ordered lists is not defined by the rulebook)",
     "permanent rows absent from new stay; under ignore_changes a changed row keeps its old text (the logics' documented purpose); for those the fixpoint is still required",
-    "Junos-like (flattened set/delete) and RouterOS formatters are not simulated here",
+    "Junos-like vendors (juniper, ribbon, nokia): flattened set/delete statements are segmented into rows by the rulebook (block rows have a fixed word count, no catch-alls, no %rewrite, no negated-form rules there); `set` creates missing blocks, `delete` inside a missing block is a no-op",
+    "the RouterOS formatter is not simulated here",
 ]
-FLOORS = {"quick": {"patches_executed": 3000, "commands_executed": 5000, "removals_executed": 500, "second_diffs_empty": 3000},
-          "thorough": {"patches_executed": 100000, "commands_executed": 200000, "removals_executed": 20000, "second_diffs_empty": 100000}}
+FLOORS = {"quick": {"patches_executed": 3000, "commands_executed": 5000, "removals_executed": 500, "second_diffs_empty": 3000, "flat_patches_executed": 800, "flat_commands_executed": 2000},
+          "thorough": {"patches_executed": 100000, "commands_executed": 200000, "removals_executed": 20000, "second_diffs_empty": 100000, "flat_patches_executed": 30000, "flat_commands_executed": 80000}}
 BLOCK_VENDORS = ["huawei", "h3c", "optixtrans", "cisco", "nexus", "iosxr", "arista", "aruba", "b4com", "pc"]
+FLAT_VENDORS = {"juniper": {"set"}, "ribbon": {"set"}, "nokia": {"/configure"}}
+FLAT_ALLOW = ("global", "ordered", "logic", "flat")
 EXIT_EXTRA = {"exit-address-family", "end-set", "endif", "end-policy", "end-filter", "end-list"}
 
 
@@ -162,8 +165,14 @@ def step(vname, rules, text, rb, old, new, acc, ctx):
     acc.case([vname, text, w["old"], w["new"]], nontrivial=(w["old"] != w["new"] and len(paths) > 0))
     acc.count("patches_executed")
     acc.count("commands_executed", len(paths))
-    acc.count("removals_executed", sum(1 for p in paths if p[-1].startswith(prefix + " ")))
-    dev = D.BlockDevice(D.from_tree(old), rules, prefix, {exitw} | EXIT_EXTRA)
+    if vname in FLAT_VENDORS:
+        acc.count("flat_patches_executed")
+        acc.count("flat_commands_executed", len(paths))
+        acc.count("removals_executed", sum(1 for p in paths if p[-1].startswith("delete ") or p[-1].startswith("/configure delete ")))
+        dev = D.FlatDevice(D.from_tree(old), rules, FLAT_VENDORS[vname])
+    else:
+        acc.count("removals_executed", sum(1 for p in paths if p[-1].startswith(prefix + " ")))
+        dev = D.BlockDevice(D.from_tree(old), rules, prefix, {exitw} | EXIT_EXTRA)
     w["commands"] = [list(p) for p in paths]
     try:
         dev.run(paths)
@@ -189,7 +198,17 @@ def step(vname, rules, text, rb, old, new, acc, ctx):
     allowed = set()
     frozen_only = only_frozen(diff2, allowed)
     exits = {exitw} | EXIT_EXTRA
-    residual = [p for p in paths2 if not (p in allowed or (p[-1] in exits and p[:-1] in allowed))]
+    if vname in FLAT_VENDORS:
+        def as_path(p):
+            words = p[0].split()
+            if words and words[0] in FLAT_VENDORS[vname]:
+                words = words[1:]
+            if not words or words[0] == "delete":
+                return p
+            return tuple(D.segment(words, rules))
+        residual = [p for p in paths2 if as_path(p) not in allowed]
+    else:
+        residual = [p for p in paths2 if not (p in allowed or (p[-1] in exits and p[:-1] in allowed))]
     if residual:
         acc.violation("C01/second-patch-not-empty", "a second patch taken after deploying the first still contains commands",
                       dict(w, device_after=state, second_commands=[list(p) for p in paths2][:10]))
@@ -207,7 +226,10 @@ def run_case(case, acc):
     rng = random.Random(case["seed"])
     vname = case["vendor"]
     v, prefix, exitw, hw, fmt = vendor_env(vname)
-    rules = G.gen_rulebook(rng, depth=3, prefix=prefix)
+    if vname in FLAT_VENDORS:
+        rules = G.gen_rulebook(rng, depth=3, prefix=prefix, allow=FLAT_ALLOW)
+    else:
+        rules = G.gen_rulebook(rng, depth=3, prefix=prefix)
     text = RB.render(rules)
     try:
         rb = compile_rb(text, vname)
@@ -298,4 +320,8 @@ def run_shard(spec, acc):
     for j in range(total // n):
         case = {"vendor": BLOCK_VENDORS[(j + k) % len(BLOCK_VENDORS)], "seed": rng.randrange(1 << 48),
                 "chain": rng.randint(1, 4 if tier == "quick" else 8)}
+        run_case(case, acc)
+    flat = sorted(FLAT_VENDORS)
+    for j in range((total // 3) // n):
+        case = {"vendor": flat[(j + k) % len(flat)], "seed": rng.randrange(1 << 48), "chain": rng.randint(1, 4 if tier == "quick" else 8)}
         run_case(case, acc)
